@@ -303,12 +303,12 @@ def r11_4(ctx):
 
 
 def run(ctx):
-    r11_1(ctx)
-    r11_2(ctx)
-    r11_3(ctx)
-    r11_4(ctx)
+    ctx.do(r11_1)
+    ctx.do(r11_2)
+    ctx.do(r11_3)
+    ctx.do(r11_4)
     from . import c02
-    c02.r2_1(ctx)
-    c02.r2_4(ctx)
+    ctx.do(c02.r2_1)
+    ctx.do(c02.r2_4)
     ctx.note("R11.5 (reconcile never lowers next_uid; UID state committed) is decided by C02 rules R2.1/R2.4")
     ctx.trust("frozen table of persistent operations: " + ", ".join(k for k, _, _ in OPS))
